@@ -427,6 +427,24 @@ size_t varintAdaptiveEncode(uint8_t *dst, const uint64_t *values, size_t count,
     varintAdaptiveEncodingType encodingType =
         varintAdaptiveSelectEncoding(&stats);
 
+    /* varintAdaptiveMaxSize() promises the TAGGED worst case. DICT chosen from
+     * a sampled uniqueness estimate (count > 10000) and PFOR with many
+     * exceptions can need more than that, so verify their size and fall back
+     * to TAGGED when they would not fit the advertised bound. */
+    if (encodingType == VARINT_ADAPTIVE_DICT && count > 10000) {
+        size_t need = varintDictEncodedSize(values, count);
+        if (need == 0 || need + 1 > varintAdaptiveMaxSize(count)) {
+            encodingType = VARINT_ADAPTIVE_TAGGED;
+        }
+    } else if (encodingType == VARINT_ADAPTIVE_PFOR) {
+        varintPFORMeta pforMeta;
+        varintPFORComputeThreshold(values, (uint32_t)count,
+                                   VARINT_PFOR_THRESHOLD_95, &pforMeta);
+        if (varintPFORSize(&pforMeta) + 1 > varintAdaptiveMaxSize(count)) {
+            encodingType = VARINT_ADAPTIVE_TAGGED;
+        }
+    }
+
     /* Encode with selected encoding */
     return varintAdaptiveEncodeWith(dst, values, count, encodingType, meta);
 }
